@@ -19,7 +19,16 @@
 #define CHUNKSIZE CLI_CHUNKSIZE_UNUSED
 #define _handle_write _cli_handle_write
 #include "parse_util.c"   /* static conf_aliases: dumped for the model */
+/* the --stdio client's two descriptors are descriptors of the simulated kernel (the harness's own protocol runs on the real 0 and 1) */
+#undef STDIN_FILENO
+#undef STDOUT_FILENO
+#define STDIN_FILENO 1000
+#define STDOUT_FILENO 1001
 #include "client.c"
+#undef STDIN_FILENO
+#undef STDOUT_FILENO
+#define STDIN_FILENO 0
+#define STDOUT_FILENO 1
 #undef _handle_read
 #undef _xhostlist_ranged_string
 #undef _handle_write
@@ -229,11 +238,16 @@ static int read_op(void){
             typeof(K[0]) *k = KK(fd); k->rev = rev; k->rk = rk; k->cap = cap; k->len = unhex(hex, k->data); } }
     return op;
 }
-static void end_of_pass(struct timeval *tv){
-    logrx = 0;
+/* what was read and written on each descriptor since the last op */
+static void report_rw(void){
     EACHK(i)
         if (K[i].reads) printf("Y read %d %d%s\n", VFD0 + i, K[i].readres, K[i].rblock ? " BLOCKS" : "");
-        if (K[i].writes) { printf("Y write %d ", VFD0 + i); hexout(K[i].w ? K[i].w : (unsigned char *)"", K[i].wlen); printf(" %s%s\n", K[i].werr ? "E" : "ok", K[i].wblock ? " BLOCKS" : ""); } }
+        if (K[i].writes) { printf("Y write %d ", VFD0 + i); hexout(K[i].w ? K[i].w : (unsigned char *)"", K[i].wlen); printf(" %s%s\n", K[i].werr ? "E" : "ok", K[i].wblock ? " BLOCKS" : ""); }
+        K[i].reads = K[i].writes = 0; }
+}
+static void end_of_pass(struct timeval *tv){
+    logrx = 0;
+    report_rw();
     static struct timeval none; timerclear(&none);
     dump(last_op == 'P' ? (tv ? tv : &none) : NULL); printf(".\n"); fflush(stdout);
 }
@@ -249,7 +263,9 @@ int __wrap_xpoll(xpollfd_t pfd, struct timeval *tv){
 }
 static const char *disp(int sig){ struct sigaction sa; sigaction(sig, NULL, &sa); return sa.sa_handler == SIG_IGN ? "ign" : sa.sa_handler == SIG_DFL ? "dfl" : "handler"; }
 static void harness_cli_start(bool use_stdio){
-    listen_fds = (int *)xmalloc(sizeof(int)); listen_fds[0] = LFD; listen_fds_len = 1;
+    /* `udmn conf stdio`: main() was given --stdio; what the real cli_start() does in that case, on simulated descriptors 1000 (in) and 1001 (out) */
+    if (use_stdio) { nacc = 2; memset(KK(1000), 0, sizeof K[0]); memset(KK(1001), 0, sizeof K[0]); _create_client_stdio(); one_client = true; printf("STDIO 1000 1001\n"); }
+    else { listen_fds = (int *)xmalloc(sizeof(int)); listen_fds[0] = LFD; listen_fds_len = 1; }
     { ListIterator di = list_iterator_create(dev_getdevices()); Device *dev;
       while ((dev = list_next(di))) {
         printf("DEV "); hexout((unsigned char*)dev->name, strlen(dev->name)); printf(" %d\n", dev->connect == tcp_connect ? 0 : 1);
@@ -277,9 +293,10 @@ static void harness_cli_start(bool use_stdio){
 
 int main(int ac, char**av){
     setvbuf(stdout, NULL, _IOFBF, 1 << 20);
-    char *args[] = { "udmn", "-c", av[1], NULL };
-    int rc = pm_main(3, args);      /* returns when _select_loop() was left through the exit pipe and cli_fini/dev_fini/conf_fini ran */
+    char *args[] = { "udmn", "-c", av[1], "-s", NULL };
+    int rc = pm_main(ac > 2 && !strcmp(av[2], "stdio") ? 4 : 3, args);      /* returns when _select_loop() was left through the exit pipe and cli_fini/dev_fini/conf_fini ran */
     logrx = 0;
+    report_rw();                    /* --stdio: the loop was left in the middle of a pass (cli_server_done), not from poll */
     printf("I exit %d signalled %d\n", rc, signalled);
     printf("O teardown\n.\n"); fflush(stdout);
     return 0;
